@@ -119,7 +119,8 @@ def gen_spec(rng, *, max_objects=60, tier="quick") -> dict:
                 name = rng.choice(keys)[0]
             typ = rng.choice(TYPES_V1)
             loc = rng.choice(["api.html", "lib/x.html", "a b.html", rng.choice(UNI) + ".html", "mod.html"])
-            lines.append(f"{name} {typ} {loc}")
+            sep1 = rng.choice([" ", " ", " ", "  ", "\t"])  # Sphinx splits v1 lines on any whitespace run
+            lines.append(f"{name}{sep1}{typ}{rng.choice([' ', ' ', '   '])}{loc}")
             keys.append((name, typ))
     spec = {
         "version": version,
